@@ -27,8 +27,8 @@ GRIDS_Q = [[1, 1], [1, 2], [2, 1], [2, 2], [1, 3], [3, 1], [2, 3], [4, 1]]
 GRIDS_T = GRIDS_Q + [[3, 2], [1, 4], [4, 2], [2, 4], [3, 3], [6, 1], [1, 8]]
 
 
-def drv(job):
-    env = dict(os.environ, VERIF_REPO=os.environ.get("VERIF_REPO", "/repo"), PYTHONHASHSEED="0")
+def drv(job, **extra_env):
+    env = dict(os.environ, VERIF_REPO=os.environ.get("VERIF_REPO", "/repo"), PYTHONHASHSEED="0", **extra_env)
     p = subprocess.run([sys.executable, "-m", "harness.drv05"], input=json.dumps(job), capture_output=True, text=True, cwd=VERIF,
                        env=env, timeout=3600)
     if p.returncode != 0:
